@@ -1,5 +1,6 @@
 import Octo.Lemmas.OpsShape
 import Octo.Lemmas.OpsBufferProps
+import Octo.Lemmas.OpsExamples
 /-!
 # C18 — Watermarks never go backwards and operators do not create late data (single-input half)
 
@@ -218,5 +219,80 @@ theorem ctgb_no_late (agg : GAgg α) (kf inf : Row → Row) (ms : List Msg) (hw 
     rw [(het r hr).1] at he; cases he
     simp only [wms_wmMsgs, wms_bufSpec, List.append_nil, List.mem_reverse] at hw'
     exact hw w hw'
+
+/-! # The full-strength statement (single-input nodes), its refutation, and what does hold -/
+
+/-- what C18 demands of one node: monotone watermarks stay monotone, and no late data is created -/
+def Keeps (run : List Msg → Out) (Side : List Msg → Prop) : Prop :=
+  ∀ ms, Side ms → (Mono (wms ms) → Mono (wms (run ms).1)) ∧ (NoLate ms → NoLate (run ms).1)
+
+structure StatementWith (extraLookup : (Row → List Msg) → Prop) (extraKey : Option Nat → Prop) : Prop where
+  filter : ∀ p : Row → Value, Keeps (filterOp fun x => .ok (p x)).run (fun _ => True)
+  map : ∀ f : Row → Row, Keeps (mapOp fun x => .ok (f x)).run (fun _ => True)
+  distinct : Keeps distinctOp.run (fun _ => True)
+  limit : ∀ n : Int, Keeps (fun ms => limitNode n ms false) (fun _ => True)
+  unnest : ∀ idx : Nat, Keeps (unnestOp idx).run (fun ms => ∀ r ∈ recs ms, idx < r.vals.length)
+  lookupJoin : ∀ J : Row → List Msg, (∀ x, Mono (wms (J x))) → extraLookup J →
+    Keeps (lookupOp fun x => (J x, none)).run (fun _ => True)
+  groupBy : ∀ (α : Type) (agg : GAgg α) (kf inf : Row → Row),
+    Keeps (simpleGroupOp agg (fun x => .ok (kf x)) (fun x => .ok (inf x))).run (fun _ => True)
+  groupByCustom : ∀ (α : Type) (agg : GAgg α) (kf inf : Row → Row) (etIdx : Option Nat), extraKey etIdx →
+    Keeps (fun ms => ctgbNode agg (fun x => .ok (kf x)) (fun x => .ok (inf x)) etIdx ms false)
+      (fun ms => ∀ w ∈ wms ms, w < maxWm)
+  orderBy : ∀ (dirs : List Int) (kf : Row → Row) (limit : Option Int) (noRetr : Bool),
+    Keeps (orderOp dirs (fun x => .ok (kf x)) limit noRetr).run (fun _ => True)
+  eventTimeBuffer : Keeps etbOp.run (fun _ => True)
+  bufferSpec : ∀ ms, etbOp.run ms = (bufSpec [] ms, none)
+
+def Statement : Prop := StatementWith (fun _ => True) (fun _ => True)
+
+/-- grouped by an event-time key (column 0), the end-of-stream flush stamps the row with the key's
+    time although `W10` has been forwarded -/
+def srcKeyed : List Msg := [.data { vals := [.time 5 0], retr := false, et := some 5 }, .wm 10]
+
+theorem ctgb_keyed_refuted :
+    ¬ Keeps (fun ms => ctgbNode countAgg (fun x => .ok x) (fun _ => .ok []) (some 0) ms false) (fun ms => ∀ w ∈ wms ms, w < maxWm) := by
+  intro h
+  have hin : NoLate srcKeyed := by rw [NoLate, noLateFrom_iff]; decide
+  have := (h srcKeyed (by intro w hw; simp [srcKeyed, wms] at hw; subst hw; decide)).2 hin
+  rw [NoLate, noLateFrom_iff] at this
+  revert this; decide
+
+/-- **C18 (single-input half) is refuted on the current tree** (reproduced on the real nodes: known
+    findings `lookup-join-forwards-joined-watermarks`, `ctgb-end-of-stream-flush-late`) -/
+theorem C18_refuted : ¬ Statement := by
+  intro h
+  apply lookup_wm_refuted
+  intro J ms hJ hm
+  exact ((h.lookupJoin J hJ trivial) ms trivial).1 hm
+
+/-- **What holds**: everything, provided the joined side of a lookup join emits no watermarks and
+    CustomTriggerGroupBy is not keyed by an event-time column -/
+theorem C18_partial : StatementWith (fun J => ∀ x, wms (J x) = []) (fun etIdx => etIdx = none) where
+  filter p ms _ := ⟨filter_wm_mono p ms, filter_no_late p ms⟩
+  map f ms _ := ⟨map_wm_mono f ms, map_no_late f ms⟩
+  distinct ms _ := ⟨distinct_wm_mono ms, distinct_no_late ms⟩
+  limit n ms _ := ⟨limit_wm_mono n ms, limit_no_late n ms⟩
+  unnest idx ms h := ⟨unnest_wm_mono idx ms h, unnest_no_late idx ms h⟩
+  lookupJoin J _ hJ ms _ := ⟨lookup_wm_mono J hJ ms, lookup_no_late J hJ ms⟩
+  groupBy _ agg kf inf ms _ := ⟨sgroup_wm_mono agg kf inf ms, fun _ => sgroup_no_late agg kf inf ms⟩
+  groupByCustom _ agg kf inf etIdx he ms hw := by
+    subst he
+    exact ⟨ctgb_wm_mono agg kf inf ms, fun _ => ctgb_no_late agg kf inf ms hw⟩
+  orderBy dirs kf limit noRetr ms _ := ⟨fun _ => order_wm_mono dirs kf limit noRetr ms, fun _ => order_no_late dirs kf limit noRetr ms⟩
+  eventTimeBuffer ms _ := ⟨etb_wm_mono ms, etb_no_late ms⟩
+  bufferSpec := buffer_spec
+
+/-! ### non-vacuity: a stream with watermarks, ties, zero times, where the buffer really reorders -/
+def srcBuf : List Msg :=
+  [.data ⟨[.int 1], false, some 7⟩, .data ⟨[.int 2], false, some 3⟩, .data ⟨[.int 3], false, none⟩,
+   .data ⟨[.int 4], false, some 3⟩, .wm 5, .data ⟨[.int 5], false, some 6⟩]
+example : NoLate srcBuf ∧ Mono (wms srcBuf) := by
+  constructor
+  · rw [NoLate, noLateFrom_iff]; decide
+  · rw [mono_iff_B]; decide
+/-- zero-time record at once; at `W5` the two records of time 3 in arrival order; 6 before 7 at the end -/
+example : (recs (out etbOp srcBuf)).map (fun r => r.vals.map intOf) = [[3], [2], [4], [5], [1]] := by
+  simp only [out, buffer_spec]; decide
 
 end Octo.C18
